@@ -262,6 +262,31 @@ def capacity_boundary_reqs(rng, tier):
                         reqs.append(parse_reqs(rng, r, b, ["u.from_str", "u.parse_bytes", "i.from_str"][(k + L) % 3]))
                     else:
                         reqs.append("C06 u.from_radix_be %d %s" % (r, wbytes(ds)))
+    # inputs whose digit count is an exact multiple of the chunk length (`power` digits per big digit) and of power·2^j,
+    # and one more / one less: a chunked or divide-and-conquer reader splits there and must cope with an empty or ragged
+    # leading piece (C14-j1: `split_at(len % chunk_len)` hands an empty head to the old loop; C06-j1-like table sizing)
+    for r in [10, 3, 7, 36] + rng.sample([q for q in range(2, 37) if not is_pow2(q)], 2) + [255, 100]:
+        base, power = radix_power(r)
+        ms = [1, 2, 3, 31, 32, 33, 63, 64, 65, 72, 80, 96, 127, 128, 129] + ([192, 255, 256, 257, 512] if thorough else [])
+        for m_ in ms:
+            for L in (power * m_ - 1, power * m_, power * m_ + 1):
+                if L < 1:
+                    continue
+                ds = [rng.randrange(1, r)] + [rng.randrange(r) for _ in range(L - 1)]
+                if r <= 36:
+                    reqs.append(parse_reqs(rng, r, "".join(ALPHA[d] for d in ds).encode(), ["u.from_str", "u.parse_bytes", "i.from_str"][(m_ + L) % 3]))
+                else:
+                    reqs.append("C06 u.from_radix_%s %d %s" % ("be" if L % 2 else "le", r, wbytes(ds)))
+    # OUTPUT size estimate: the smallest value with k + 1 digits (r^k) and the largest with k digits (r^k − 1) for every k
+    # (radix 10: every k up to 420 (1300); others sampled) — an estimate one digit short only shows at the bottom of a
+    # digit count, for particular bit lengths (C16-j1: `((bits * 1233) >> 12) + 1` under no_std)
+    for r in [10] + rng.sample([q for q in range(3, 37) if not is_pow2(q)], 3 if not thorough else 12):
+        kmax = (1300 if thorough else 420) if r == 10 else (300 if thorough else 120)
+        for k in range(1, kmax):
+            if r == 10 or thorough or k % 3 == 0 or k < 30:
+                reqs.append("C06 u.to_str %s %d" % (wu(r ** k), r))
+                if k % 2 == 0:
+                    reqs.append("C06 u.to_str %s %d" % (wu(r ** k - 1), r))
     return reqs
 
 def gen(rng, tier):
